@@ -530,11 +530,22 @@ func (o *oracleCtx) checkCreate(img *SImage) {
 	if img.H.Launch != wl {
 		o.add("C01", 0, "", "launch script read back as %q, given %q", img.H.Launch[:], launch)
 	}
-	if img.H.ID != co.EffID {
-		o.add("C01", 0, "", "image ID read back as %x, given %x", img.H.ID, co.EffID)
+	idKnown, wantID, timeKnown, wantT := co.Expected()
+	if idKnown && img.H.ID != wantID {
+		for _, p := range []string{"C01", "C12"} {
+			o.add(p, 0, "", "image ID read back as %x, options determine %x", img.H.ID, wantID)
+		}
 	}
-	if img.H.Ctime != co.EffTime || img.H.Mtime != co.EffTime {
-		o.add("C01", 0, "", "creation time read back as %d/%d, given %d", img.H.Ctime, img.H.Mtime, co.EffTime)
+	if !idKnown && (img.H.ID[6]>>4 != 4 || img.H.ID[8]>>6 != 2) {
+		o.add("C01", 0, "", "default image ID %x is not a random (version 4) UUID", img.H.ID)
+	}
+	if timeKnown && (img.H.Ctime != wantT || img.H.Mtime != wantT) {
+		for _, p := range []string{"C01", "C12"} {
+			o.add(p, 0, "", "creation time read back as %d/%d, options determine %d", img.H.Ctime, img.H.Mtime, wantT)
+		}
+	}
+	if img.H.Ctime != img.H.Mtime {
+		o.add("C01", 0, "", "creation and modification time differ after creation: %d / %d", img.H.Ctime, img.H.Mtime)
 	}
 	if img.H.Total != co.EffCap() {
 		o.add("C01", 0, "", "capacity %d, requested %d", img.H.Total, co.EffCap())
